@@ -54,7 +54,8 @@ enum Cmd {
 impl NameVolume {
     pub fn generate(rng: &mut Rng, big: bool) -> NameVolume {
         let threads = rng.range_usize(2, 6);
-        const PARTS: [&str; 9] = ["", "_", "a", "tmp_0_0", "7", "x_1", "index.gbz", "v1.2", "."];
+        // "<TMP>" stands for the temporary directory: different spellings of one path.
+        const PARTS: [&str; 12] = ["", "_", "a", "tmp_0_0", "7", "x_1", "index.gbz", "v1.2", ".", "x", "./x", "<TMP>/x"];
         let same = rng.chance(1, 2);
         let long = |rng: &mut Rng| -> String { let n = *rng.pick(&[200usize, 245, 250, 255, 300]); let mut s = String::from("long-"); while s.len() < n { s.push((b'a' + (s.len() % 26) as u8) as char); } s };
         let first = if rng.chance(1, 10) { long(rng) } else { rng.pick(&PARTS).to_string() };
@@ -63,7 +64,7 @@ impl NameVolume {
         // keeps each thread's own chunks in order. Some threads start late, some finish early.
         let mut chunks: Vec<Vec<usize>> = Vec::new();
         for _ in 0..threads {
-            let quota = match rng.below(9) { 0 => 1, 1 | 2 => rng.range_usize(2, 40), 3 => rng.range_usize(17, 100), 4 => rng.range_usize(300, 5000), 5 => 65_535, 6 => 65_537, 7 => 70_000, _ => if big { rng.range_usize(100_000, 300_000) } else { rng.range_usize(60_000, 80_000) } };
+            let quota = match rng.below(10) { 0 => 1, 1 | 2 => rng.range_usize(2, 40), 3 => rng.range_usize(17, 100), 4 => rng.range_usize(300, 5000), 5 => 65_535, 6 => 65_537, 7 => 70_000, 8 => *rng.pick(&[1_048_575usize, 1_048_577, 1_100_000]), _ => if big { rng.range_usize(100_000, 300_000) } else { rng.range_usize(60_000, 80_000) } };
             let chunk = match rng.below(6) { 0 => quota, 1 => 1, 2 => rng.range_usize(1, 40), 3 => 16, 4 => 33, _ => rng.range_usize(1, quota.max(1)) }.max(1);
             let mut v = Vec::new();
             let mut left = quota;
@@ -101,7 +102,7 @@ impl NameVolume {
                 if i > 0 && workers.iter().any(|w| w.is_some()) { late_start = true; }
                 let (cmd_tx, cmd_rx) = mpsc::channel::<Cmd>();
                 let (res_tx, res_rx) = mpsc::channel::<Vec<String>>();
-                let part = self.parts[*t].clone();
+                let part = self.parts[*t].replace("<TMP>", &std::env::temp_dir().to_string_lossy());
                 let (exit_k, guard_first) = self.exit_calls.get(*t).cloned().unwrap_or((0, false));
                 let sink = exit_sinks[*t].clone();
                 let h = std::thread::spawn(move || {
@@ -150,9 +151,12 @@ impl NameVolume {
         }
         let mut seen: BTreeSet<&str> = BTreeSet::new();
         for (t, name) in all.iter() {
+            // A name part with a directory separator can only be looked for in the whole path.
+            let part = self.parts[*t].replace("<TMP>", &std::env::temp_dir().to_string_lossy());
             let file = std::path::Path::new(name).file_name().map(|f| f.to_string_lossy().into_owned()).unwrap_or_default();
-            if !file.contains(self.parts[*t].as_str()) {
-                return out.fail(Violation::new(prop, "name-part", "temp_file_name", format!("{:?} does not contain the caller's name part {:?}", name, self.parts[*t])));
+            let found = if part.contains('/') { name.contains(part.as_str()) } else { file.contains(part.as_str()) };
+            if !found {
+                return out.fail(Violation::new(prop, "name-part", "temp_file_name", format!("{:?} does not contain the caller's name part {:?}", name, part)));
             }
             if !seen.insert(name.as_str()) {
                 return out.fail(Violation::new(prop, "duplicate-volume", "temp_file_name", format!("the path {:?} was returned twice ({} threads, schedule of {} steps)", name, n, self.schedule.len())));
@@ -160,10 +164,12 @@ impl NameVolume {
         }
         out.stats.steps = all.len() as u64;
         let quota = |t: usize| -> usize { self.schedule.iter().filter(|(u, _)| *u == t).map(|(_, k)| *k).sum() };
-        let classes: Vec<u8> = (0..n).map(|t| { let c = quota(t); if c > 65_536 { 3 } else if c > 4096 { 2 } else if c > 16 { 1 } else { 0 } }).collect();
+        let classes: Vec<u8> = (0..n).map(|t| { let c = quota(t); if c > (1 << 20) { 4 } else if c > 65_536 { 3 } else if c > 4096 { 2 } else if c > 16 { 1 } else { 0 } }).collect();
         out.stats.sigs.insert(crate::rng::fnv(format!("{:?}|{}|{}|{}", classes, self.schedule.len().min(20), late_start, exit_while_others_alive).as_bytes()));
         out.stats.fault("T2-prescribed hand-over between real threads", self.schedule.len() as u64);
         out.stats.probe_if((0..n).any(|t| quota(t) > 65_536), "a thread with more than 65536 calls");
+        out.stats.probe_if((0..n).any(|t| quota(t) > (1 << 20)), "a thread with more than 2^20 calls");
+        out.stats.probe_if(self.parts.iter().any(|p| p.contains('/')), "name parts that spell a path");
         out.stats.probe_if(late_start, "a thread started while others were already running");
         out.stats.probe_if(exit_while_others_alive, "a thread exited while others were still alive");
         out.stats.probe_if(alive_max >= 3, "three or more threads alive at once");
